@@ -62,7 +62,7 @@ fn clock() -> &'static MockClock {
 pub enum Op {
     /// deadline(clock0 + d)
     Deadline(u8, u8),
-    /// delay: 0 = 0 ms, 1 = 1 ms, 2 = 2 ms, 9 = Duration::MAX
+    /// delay: 0 = 0 ms, 1 = 1 ms, 2 = 2 ms, 8 = 2^64 + 5 ms, 9 = Duration::MAX
     Delay(u8, u8),
     Poll(u8, u8),
     PollDone(u8),
@@ -237,7 +237,7 @@ impl<F: Flavor> System for Sys<F> {
                     let ts = self.clock0 + d as u64;
                     (ts, lib(|| F::deadline(t, ts)))
                 } else {
-                    let dur = if d == 9 { Duration::MAX } else { Duration::from_millis(d as u64) };
+                    let dur = if d == 9 { Duration::MAX } else if d == 8 { Duration::new(18_446_744_073_709_551, 621_000_000) } else { Duration::from_millis(d as u64) };
                     let ms = std::cmp::min(dur.as_millis(), u64::MAX as u128) as u64;
                     (self.now.saturating_add(ms), lib(|| F::delay(t, dur)))
                 };
